@@ -192,6 +192,8 @@ func (i StringsInspector) DeepEqualWithOptions(l, r any, _ *DEQOptions) bool {
 	}
 	ssLn, ssRn, ppLn, ppRn := len(ssL), len(ssR), len(ppL), len(ppR)
 	switch {
+	case ssLn+ppLn == 0 && ssRn+ppRn == 0:
+		return true
 	case ssLn > 0 && ssRn > 0 && ssLn == ssRn:
 		for j := 0; j < ssLn; j++ {
 			if ssL[j] != ssR[j] {
